@@ -132,6 +132,10 @@ def model_fields(c):
         return ["gmerge", str(c["meta"])]
     if k == "greset":
         return ["greset", c["kind"], hx(c["arg"]) if c["kind"] == "patch" else str(c["arg"])]
+    if k == "edit":
+        return ["edit", hx(c["loc"]) if c.get("loc") is not None else "_", str(c["meta"])]
+    if k == "rebase":
+        return ["rebase", c["kind"], hx(c["arg"]) if c["kind"] == "patch" else str(c["arg"])]
     raise ValueError(k)
 
 
@@ -186,6 +190,12 @@ def stg_argv(c):
         return ["undo"] + fl + (["-n", str(c["n"])] if "n" in c else [])
     if k == "redo":
         return ["redo"] + fl + (["-n", str(c["n"])] if "n" in c else [])
+    if k == "edit":
+        return ["edit", "-m", "x%d edited" % c["meta"]] + (["--", esc(c["loc"])] if c.get("loc") is not None else [])
+    if k == "rebase":
+        if c["kind"] == "patch":
+            return ["rebase", "--", esc(c["arg"])]
+        return ["rebase", "--", ("{base}~%d" if c["kind"] == "base" else "HEAD~%d") % c["arg"]]
     if k == "reset":
         a = ["reset"] + fl
         if c.get("entry") is not None:
@@ -659,7 +669,7 @@ def run_scenario(stg, driver, unicode_path, steps, oracles=(), tag="h", keep_goi
                     f = orc(real, rsnap, rgraph, i, c, rexit, stderr)
                     if f:
                         result["oracle_failures"].append({"step": i, "cmd": c, "why": f, "exit": rexit,
-                                                          "stderr": stderr[-300:]})
+                                                          "stderr": stderr_excerpt(stderr)})
                 d = diff(rc, mc)
                 if d and "Untracked working tree file" in stderr and "would be overwritten" in stderr:
                     # a refused conflict (--conflicts=disallow / stgit.push.allow-conflicts=false)
@@ -684,6 +694,12 @@ def run_scenario(stg, driver, unicode_path, steps, oracles=(), tag="h", keep_goi
             real.close()
             ms.close()
     return result
+
+
+def stderr_excerpt(stderr, n=300):
+    """the end of stderr, but starting at the panic message when there is one"""
+    k = stderr.find("panicked at")
+    return stderr[k:k + n] if k >= 0 else stderr[-n:]
 
 
 def model_view(msnap, mgraph):
